@@ -13,7 +13,7 @@ const BUYER: u64 = 20;
 /// Integration: create a real minter of kind `k` through its factory (mint_fee_bps = `bps`, price = `price`, developer = DEV,
 /// payment address = SELLER), let BUYER mint once at start+1, and report who received how much: the published schedule by
 /// caller (featured ⇒ 1/8, open edition ⇒ developer half first) is a claim about the CALLERS of sg1, not only about sg1.
-fn mint_fee_integration(k: usize, price: u128, bps: u64) -> String {
+fn mint_fee_integration(k: usize, price: u128, bps: u64, devbad: bool) -> String {
     let kind = MinterKind::from_idx(k);
     let mut w = MWorld::new(GENESIS + 1000);
     let mut p = w.default_params(kind);
@@ -26,6 +26,13 @@ fn mint_fee_integration(k: usize, price: u128, bps: u64) -> String {
     a.payment_address = Some(SELLER);
     w.fund(&addr(a.creator), 0, p.creation_fee.1);
     let Ok((m, _c)) = w.create_minter(&f, kind, &a) else { return "setup-create-failed".into() };
+    if devbad {
+        // governance stores a developer address that does not validate (the factory keeps the string as it is): a configured
+        // developer that cannot be paid must not silently turn into "no developer" — the mint has to be refused
+        if w.sudo(&f, &json!({"update_params":{"extension":{"dev_fee_address":"ACCT-NOT-AN-ADDRESS"}}})).is_err() {
+            return "setup-sudo-failed".into();
+        }
+    }
     w.set_time(a.start_time + 1);
     w.fund(&addr(BUYER), 0, price);
     let watch = [DEV, ID_LIQUIDITY_DAO, ID_LAUNCHPAD_DAO, ID_FAIRBURN_POOL, SELLER];
@@ -148,7 +155,7 @@ impl Sut for S {
         let op = line.split_whitespace().next().unwrap_or("");
         let dev = |l: &str| kv_opt_u64(l, "dev").unwrap().map(a);
         if op == "mintfee" {
-            let out = mint_fee_integration(kv_u64(line, "kind").unwrap() as usize, kv_u128(line, "price").unwrap(), kv_u64(line, "bps").unwrap());
+            let out = mint_fee_integration(kv_u64(line, "kind").unwrap() as usize, kv_u128(line, "price").unwrap(), kv_u64(line, "bps").unwrap(), kv_bool(line, "devbad").unwrap_or(false));
             self.last = Some((line.to_string(), out.clone()));
             return (format!("{line} dev={DEV}"), out);
         }
@@ -249,6 +256,9 @@ impl Sut for S {
                 let got = (getn(&out, "dev"), getn(&out, "liq"), getn(&out, "lp"), getn(&out, "burned"), getn(&out, "pool"));
                 let want = (devp, liq, rest - liq, 0u128, 0u128);
                 let badk = |p: &str, w: String| Some((format!("{name}/mint/{p}"), format!("{w} on `{line}` => `{out}`")));
+                if kv_bool(&line, "devbad").unwrap_or(false) && has_dev && f != 0 {
+                    return badk("fee-schedule", "a developer is configured (an address that does not validate) yet the mint went through and the developer's half was given to others".into());
+                }
                 if got.0.saturating_add(got.1).saturating_add(got.2).saturating_add(got.3).saturating_add(got.4) != f {
                     return badk("fee-parts-sum", format!("parts {:?} do not sum to the network fee {f}", got));
                 }
@@ -473,6 +483,14 @@ fn main() {
         }
         ses.require(format!("caller:{name}:ok:fee-odd"));
         ses.require(format!("caller:{name}:ok:fee-even"));
+        if k >= 6 {
+            // open edition: the configured developer address does not validate => a mint that owes a fee is refused
+            for (price, b) in [(100_000_000u128, 1000u64), (100_000_030, 1000), (7, 1)] {
+                let out = ses.step(&mut sut, &format!("mintfee kind={k} price={price} bps={b} devbad=1"));
+                ses.mark(format!("caller:{name}:devbad:{}:{}", if price * b as u128 / 10_000 == 0 { "nofee" } else { "fee" }, &out[..2]));
+            }
+            ses.require(format!("caller:{name}:devbad:fee:er"));
+        }
     }
     // creation fee routing: 4 factories x fee denom {native, other} x minimum-price denom {native, other} x exact / short payment
     for fk in 0..4u64 {
